@@ -581,5 +581,9 @@ func execReeval(x *fw.Ctx, c Case) {
 	if ckind == "" { // not reproducible in isolation: report the whole form
 		cn, ctext, ckind, cmsg = c.Tree, text, kind, msg
 	}
-	x.Fail(fmt.Sprintf("reeval form=%s fail=%s", cn.Form, ckind), "%s: %s (inside %s: %s)", ctext, cmsg, text, msg)
+	if ctext == text {
+		x.Fail(fmt.Sprintf("reeval form=%s fail=%s", cn.Form, ckind), "%s: %s", ctext, cmsg)
+		return
+	}
+	x.Fail(fmt.Sprintf("reeval form=%s fail=%s", cn.Form, ckind), "%s: %s (smallest failing sub-form of %s: %s)", ctext, cmsg, text, msg)
 }
